@@ -45,10 +45,10 @@ impl HeightField {
         let max = heights.max();
         let min = heights.min();
         let hscale = scale * 0.5;
-        let aabb = Aabb::new(
-            Point2::new(-hscale.x, min * scale.y),
-            Point2::new(hscale.x, max * scale.y),
-        );
+        // NOTE: order the two corners component-wise so the Aabb stays valid with negative scale components.
+        let a = Point2::new(-hscale.x, min * scale.y);
+        let b = Point2::new(hscale.x, max * scale.y);
+        let aabb = Aabb::new(a.inf(&b), a.sup(&b));
         let num_segments = heights.len() - 1;
 
         HeightField {
@@ -79,8 +79,10 @@ impl HeightField {
     /// Sets the scale factor applied to this heightfield.
     pub fn set_scale(&mut self, new_scale: Vector<Real>) {
         let ratio = new_scale.component_div(&self.scale);
-        self.aabb.mins.coords.component_mul_assign(&ratio);
-        self.aabb.maxs.coords.component_mul_assign(&ratio);
+        // NOTE: a negative ratio mirrors the box: re-order its corners component-wise.
+        let a = self.aabb.mins.coords.component_mul(&ratio);
+        let b = self.aabb.maxs.coords.component_mul(&ratio);
+        self.aabb = Aabb::new(a.inf(&b).into(), a.sup(&b).into());
         self.scale = new_scale;
     }
 
